@@ -16,6 +16,7 @@ From Verif Require Import Proofs.ErrorsPkg Proofs.FaultsIO Proofs.Faults Proofs.
 From Verif Require Model.Flv Proofs.Flv.
 From Verif Require Gen.Gen_errors.
 From Verif Require Model.RtmpChunk Proofs.RtmpChunk Proofs.RtmpChunkRT Proofs.FaultsRtmpChunk.
+From Verif Require Model.FaultsRtmp Proofs.FaultsRtmpG.
 Open Scope N_scope.
 
 (* ================================ the errors package ================================
@@ -242,6 +243,51 @@ Theorem c08_rtmp_read_cut ms c s fuel k :
        ((n < length ms)%nat -> k < lenN (concat (firstn (S n) ws))).
 Proof. intros W Hc Hin Hidle Hf Hfs. exact (Proofs.FaultsRtmpChunk.session_cut_segmented ms W c s fuel k Hc Hin Hidle Hf Hfs). Qed.
 
+(* ================================ RTMP read path: the data-dependent reader on the faulting transport =====
+   Model/FaultsRtmp.v is the rtmpchunk builder's chunk reader with its transport as a parameter
+   (bodies verbatim); over their own transport it IS their reader: *)
+Theorem c08_rtmp_reader_is_theirs fuel s i acc :
+  Model.FaultsRtmp.g_read_all Model.RtmpChunk.inp Model.RtmpChunk.stake fuel s i acc
+  = Model.RtmpChunk.read_all fuel s i acc.
+Proof. exact (Proofs.FaultsRtmpG.g_read_all_theirs fuel s i acc). Qed.
+
+(* Composed with the faulting transport of Lib/IO.v (handshake: three io.CopyN on the raw
+   transport; then bufio.Reader and the read loop, `io_session`):  for every list of well-formed
+   messages written by their WriteMessage model (wire = hsb ++ concat ws, hsb the 3073 handshake
+   bytes when hs), every cut offset k <= length of the wire, every terminal error t (id_EOF for a cut,
+   else the injected error, reported at whichever Read call comes after the k-th byte) and EVERY
+   segmentation of the first k bytes into transport reads:
+     - the session returns the handshake parts and exactly the first n - 3 messages (n items in all),
+     - then fails with code io_code e,
+   where (n, e) is what the read plan computed from the message list yields (`plan_outcome` of
+   `rtmp_plan`, the very plan of c08_rtmp_read_partial, which the correspondence run executes against
+   the real Protocol) -- so n is the number of items wholly inside the first k bytes, e is t or, for
+   a cut inside an io.ReadFull, io.ErrUnexpectedEOF, exactly as c08_plan_items / c08_plan_boundary /
+   c08_plan_inside / c08_rtmp_read_always_error say.  (io_code: EOF -> their E_EOF, ErrUnexpectedEOF ->
+   their E_UEOF, any other transport error e -> 1000 + e; never one of their protocol errors.) *)
+Theorem c08_rtmp_read (hs : bool) ms fuel str (hsb : bytes) k t :
+  Forall Proofs.RtmpChunkRT.wf_msg ms -> (length ms < fuel)%nat ->
+  Forall (fun m => (length (Model.RtmpChunk.m_payload m) + length ms < fuel)%nat) ms ->
+  lenN hsb = (if hs then 3073 else 0) ->
+  exists ws, Model.RtmpChunk.write_all Model.RtmpChunk.DEFCHUNK ms = map Ok ws /\
+    (k <= lenN (hsb ++ concat ws) -> flat str = (firstn (N.to_nat k) (hsb ++ concat ws), t) ->
+     exists n e,
+       plan_outcome (rtmp_plan hs (map Proofs.FaultsRtmpG.rmsg_of ms)) k t 0 = (n, Some e) /\
+       Model.FaultsRtmp.io_session hs fuel str =
+         (N.min n (if hs then 3 else 0), firstn (N.to_nat (n - (if hs then 3 else 0))) ms,
+          Model.FaultsRtmp.io_code e)).
+Proof. exact (Proofs.FaultsRtmpG.io_session_spec hs ms fuel str hsb k t). Qed.
+
+(* the plan covers exactly the bytes of the wire: "k <= length of the wire" above is
+   "k <= size of the plan" *)
+Theorem c08_rtmp_plan_size ms c ws :
+  Forall Proofs.RtmpChunkRT.wf_msg ms -> 0 < c -> Model.RtmpChunk.write_all c ms = map Ok ws ->
+  lenN (concat ws) = plan_size (Proofs.FaultsRtmpG.sess_plan c ms) /\
+  Proofs.FaultsRtmpG.sess_plan c ms = msgs_plan c (map Proofs.FaultsRtmpG.rmsg_of ms).
+Proof.
+  intros W Hc Hw. split; [exact (Proofs.FaultsRtmpG.session_size ms W c ws Hc Hw)|exact (Proofs.FaultsRtmpG.sess_plan_is_msgs_plan ms W c Hc)].
+Qed.
+
 (* ================================ RTMP write path (partial) ================================
    The write path as the operations it performs: the handshake writes (one io.Copy each on the raw
    transport) and, per WriteMessage, the io.Copy of c0/c3 headers and payload parts into the
@@ -317,6 +363,9 @@ Print Assumptions c08_plan_boundary.
 Print Assumptions c08_plan_inside.
 Print Assumptions c08_rtmp_read_always_error.
 Print Assumptions c08_rtmp_read_cut.
+Print Assumptions c08_rtmp_reader_is_theirs.
+Print Assumptions c08_rtmp_read.
+Print Assumptions c08_rtmp_plan_size.
 Print Assumptions c08_rtmp_write_partial.
 Print Assumptions c08_rtmp_write_no_fault.
 Print Assumptions c08_bufio_write_ops.
